@@ -11,15 +11,3 @@ Lemma tunnelChannel_newStream_shape : skel_tunnelChannel_newStream =
   ["call streamCreation.Lock"; "defer call streamCreation.Unlock"; "call allocateStream"; "call stream.Send"; "call removeStream"; "go func"].
 Proof. reflexivity. Qed.
 
-Lemma tunnelChannel_allocateStream_shape : skel_tunnelChannel_allocateStream =
-  ["call mu.Lock"; "defer call mu.Unlock"; "set streamCreated"; "set lastStreamID"; "set streams"].
-Proof. reflexivity. Qed.
-
-Lemma tunnelChannel_removeStream_shape : skel_tunnelChannel_removeStream =
-  ["call mu.Lock"; "defer call mu.Unlock"].
-Proof. reflexivity. Qed.
-
-Lemma tunnelServer_removeStream_shape : skel_tunnelServer_removeStream =
-  ["call mu.Lock"; "defer call mu.Unlock"].
-Proof. reflexivity. Qed.
-
